@@ -25,7 +25,8 @@ M = [
  ("c02-id-outside-lock-no-hook-between", "C02", "src/store/mod.rs", "        let _append_guard = self.append_lock.lock().unwrap();\n        frame.id = scru128::new();\n", "        frame.id = scru128::new();\n        let _append_guard = self.append_lock.lock().unwrap();\n"),
  ("c02-broadcast-outside-lock", "C02", "src/store/mod.rs", "        let _append_guard = self.append_lock.lock().unwrap();\n        frame.id = scru128::new();\n", "        let _append_guard = if frame.topic == \"xs.context\" { Some(self.append_lock.lock().unwrap()) } else { None };\n        frame.id = scru128::new();\n"),
  ("c03-snapshot-instant-before-the-lock", "C03", "src/store/mod.rs", "            #[cfg(feature = \"verif\")]\n            self.verif.point_lock(\"read.lock\", &self.append_lock);\n            let _append_guard = self.append_lock.lock().unwrap();\n            (\n                Some(self.broadcast_tx.subscribe()),\n                Some(self.keyspace.instant()),\n            )", "            let at = self.keyspace.instant();\n            #[cfg(feature = \"verif\")]\n            self.verif.point_lock(\"read.lock\", &self.append_lock);\n            let _append_guard = self.append_lock.lock().unwrap();\n            (Some(self.broadcast_tx.subscribe()), Some(at))"),
- ("c04-ack-before-remove-sync", "C04", "src/store/mod.rs", "        batch.commit()?;\n        self.keyspace.persist(fjall::PersistMode::SyncAll)?;\n        #[cfg(feature = \"verif\")]\n        self.verif.point(\"commit.post\", Some(&frame));", "        batch.commit()?;\n        self.keyspace.persist(fjall::PersistMode::Buffer)?;\n        #[cfg(feature = \"verif\")]\n        self.verif.point(\"commit.post\", Some(&frame));"),
+ ("c04-ack-before-remove-sync", "C04", "src/store/mod.rs", "        self.verif.point(\"commit.sync\", Some(&frame));\n        self.keyspace.persist(fjall::PersistMode::SyncAll)?;", "        self.verif.point(\"commit.sync\", Some(&frame));\n        self.keyspace.persist(fjall::PersistMode::Buffer)?;"),
+ ("c04-already-deleted-returns-without-sync", "C04", "src/store/mod.rs", "            self.keyspace.persist(fjall::PersistMode::SyncAll)?;\n            return Ok(());", "            return Ok(());"),
 ]
 sel = sys.argv[1] if len(sys.argv) > 1 else ""
 res = []
